@@ -322,7 +322,7 @@ func (p *Path) doAppend(a0, a1 Value) Value {
 	}
 	need := n + len(xs)
 	newCap := need
-	if p.capFork {
+	if p.capFork && !p.inHarnessCode() {
 		p.ambient = true
 		switch p.decide(2, "append-capacity", nil) {
 		case 0:
@@ -1036,4 +1036,20 @@ func typeString(t types.Type) string {
 func fnKey(fn *ssa.Function) string {
 	s := fn.String()
 	return strings.TrimSpace(s)
+}
+
+// inHarnessCode: the innermost function is part of the harness overlay, not of the code under test.
+func (p *Path) inHarnessCode() bool {
+	if len(p.stack) == 0 {
+		return true
+	}
+	fn := p.stack[len(p.stack)-1]
+	for fn.Parent() != nil {
+		fn = fn.Parent()
+	}
+	if fn.Pos().IsValid() {
+		name := p.ex.prog.Fset.Position(fn.Pos()).Filename
+		return strings.Contains(name, "zz_verif_")
+	}
+	return false
 }
